@@ -4,6 +4,7 @@ package secretstore
 
 import (
 	crand "crypto/rand"
+	"sync"
 	"fmt"
 	"testing"
 
@@ -264,6 +265,80 @@ func TestVerifC11(t *testing.T) {
 		}
 		coq := fmt.Sprintf("CKeys %d %s %s", nStores, vharness.List(ops), vharness.List(obs))
 		out.Emit(vharness.Case{Kind: "history", Coq: coq, Key: coq, Nontrivial: nontrivial, OracleOK: ok, Note: note, Sig: sig})
+	}
+	// ---- concurrent first use: several goroutines make the first use of the keys of a FRESH store at
+	// the same moment (a service starts several of them); every one of them must be handed the keys
+	// the store keeps: the account group, the exported account keys, the member and the device key
+	// for a group, the contact group.  Decided by the oracle alone (the model is sequential).
+	nConc := vharness.Budget(60, 2000)
+	if vharness.Budget(1, 1) == 0 {
+		nConc = 2
+	}
+	for it := 0; it < nConc; it++ {
+		s, err := newInMemSecretStore(nil)
+		if err != nil {
+			t.Fatal(err)
+		}
+		g, _, _ := protocoltypes.NewGroupMultiMember()
+		_, cpk, _ := crypto.GenerateEd25519Key(crand.Reader)
+		const G = 8
+		res := make([][]string, G)
+		start := make(chan struct{})
+		var wg sync.WaitGroup
+		use := func(k int) []string {
+			var out []string
+			switch k % 4 {
+			case 0:
+				if ag, _, err := s.GetGroupForAccount(); err == nil {
+					out = append(out, fmt.Sprintf("account-group %x %x", ag.PublicKey, ag.Secret))
+				}
+			case 1:
+				if a, p, err := s.ExportAccountKeysForBackup(); err == nil {
+					out = append(out, fmt.Sprintf("export %x %x", a, p))
+				}
+			case 2:
+				if md, err := s.GetOwnMemberDeviceForGroup(g); err == nil {
+					out = append(out, fmt.Sprintf("member %x", c11pub(md.Member())), fmt.Sprintf("device %x", c11pub(md.Device())))
+				}
+			case 3:
+				if cg, err := s.GetGroupForContact(cpk); err == nil {
+					out = append(out, fmt.Sprintf("contact-group %x %x", cg.PublicKey, cg.Secret))
+				}
+			}
+			return out
+		}
+		for k := 0; k < G; k++ {
+			wg.Add(1)
+			go func(k int) {
+				defer wg.Done()
+				<-start
+				res[k] = use(k)
+			}(k)
+		}
+		close(start)
+		wg.Wait()
+		// what the store keeps, read afterwards
+		kept := map[string]string{}
+		for k := 0; k < 4; k++ {
+			for _, line := range use(k) {
+				var name string
+				fmt.Sscanf(line, "%s", &name)
+				kept[name] = line
+			}
+		}
+		ok, note := true, ""
+		for k := 0; k < G && ok; k++ {
+			for _, line := range res[k] {
+				var name string
+				fmt.Sscanf(line, "%s", &name)
+				if kept[name] != line {
+					ok = false
+					note = fmt.Sprintf("concurrent first use of a fresh store: a caller was handed another %s than the one the store keeps", name)
+				}
+			}
+		}
+		out.Emit(vharness.Case{Kind: "concurrent-first-use", Key: fmt.Sprintf("conc|%d", it), Nontrivial: true, OracleOK: ok, Note: note,
+			Sig: "concurrent first use hands out keys the store does not keep"})
 	}
 	t.Logf("C11 harness: %d cases", out.N)
 }
